@@ -4,60 +4,10 @@
    generated descriptors' headers.  Instances: the C-family shape (C, C++, C#), the two JavaScript
    shapes.  No header of a generated program is dropped by the `new` / `record` rule. *)
 From Verif Require Import Base Regex Token TokEngine Headers Blocks Spec HeaderSpec LexShapes Grammar GrammarAll.
-From Verif Require Import GrammarProofsParen GrammarProofsBrace GrammarProofsHeaders GrammarAllProofsTok.
+From Verif Require Import GrammarProofsParen GrammarProofsBrace GrammarProofsHeaders GrammarAllProofsTok GrammarAllProofsCit.
 From Verif Require Import GrammarAllProofsSel GrammarAllProofsCand GrammarAllProofsCb.
 From Coq Require Import Sorted Permutation.
 Open Scope nat_scope.
-
-(* ---------- the grammar with side conditions ---------- *)
-(* citems Pc Ph l: the grammar of GrammarAll.v with an arbitrary premise `Pc (words ++ cond)` in the control-statement
-   rule (items_of has `no_throws_kw (words ++ cond)`) and an extra premise `Ph hd` in the function rule; the theorems
-   below are proved for citems so that they apply to other restrictions of the grammar as well *)
-Inductive citems (Pc Ph : list token -> Prop) (l : language) : nat -> list token -> list fdesc -> Prop :=
-| ci_nil off : citems Pc Ph l off [] []
-| ci_stmt off s r ds :
-    simple_stmt s -> citems Pc Ph l (off + length s) r ds -> citems Pc Ph l off (s ++ r) ds
-| ci_ctrl off kw words cond o body c r ds1 ds2 :
-    is_keyword kw = true -> forallb word_tok words = true ->
-    (cond = [] \/ (groups cond /\ is_name (last (kw :: words) kw) = false)) -> Pc (words ++ cond) ->
-    is_lbrace o = true -> is_rbrace c = true ->
-    citems Pc Ph l (off + 1 + length words + length cond + 1) body ds1 ->
-    citems Pc Ph l (off + 1 + length words + length cond + 1 + length body + 1) r ds2 ->
-    citems Pc Ph l off (kw :: words ++ cond ++ o :: body ++ c :: r) (ds1 ++ ds2)
-| ci_init off pre o flat c post semi r ds :
-    forallb plain pre = true -> is_lbrace o = true -> forallb plain flat = true -> is_rbrace c = true ->
-    inner post -> is_symbol semi semicolon = true ->
-    citems Pc Ph l (off + length pre + 1 + length flat + 1 + length post + 1) r ds ->
-    citems Pc Ph l off (pre ++ o :: flat ++ c :: post ++ semi :: r) ds
-| ci_cb off a tail o body c post semi r ds1 ds2 :
-    is_jsts l = true -> a <> [] -> open_prefix a (length post) ->
-    (is_lparen (last a o) = true \/ is_symbol (last a o) s_comma = true) ->
-    cb_tail tail -> is_lbrace o = true -> is_rbrace c = true ->
-    forallb is_rparen post = true -> is_symbol semi semicolon = true ->
-    citems Pc Ph l (off + length a + length tail + 1) body ds1 ->
-    citems Pc Ph l (off + length a + length tail + 1 + length body + 1 + length post + 1) r ds2 ->
-    citems Pc Ph l off (a ++ tail ++ o :: body ++ c :: post ++ semi :: r) (ds1 ++ ds2)
-| ci_func off pre hd nm_off hend_off o body c r ds1 ds2 :
-    forallb (prefix_word l) pre = true -> fhead l hd nm_off hend_off -> Ph hd ->
-    is_lbrace o = true -> is_rbrace c = true ->
-    citems Pc Ph l (off + length pre + length hd + 1) body ds1 ->
-    (lang_nested l = false -> ds1 = []) ->
-    citems Pc Ph l (off + length pre + length hd + 1 + length body + 1) r ds2 ->
-    citems Pc Ph l off (pre ++ hd ++ o :: body ++ c :: r)
-          (mkFd (off + length pre + nm_off) (off + length pre) (off + length pre + hend_off)
-                (off + length pre + length hd) (off + length pre + length hd + 1 + length body)
-           :: ds1 ++ ds2).
-
-Definition any_tokens : list token -> Prop := fun _ => True.
-
-(* the grammar of GrammarAll.v is the instance "no `throws` keyword in a condition" *)
-Lemma items_of_citems l off ts ds : items_of l off ts ds -> citems no_throws_kw any_tokens l off ts ds.
-Proof. induction 1; [apply ci_nil | apply ci_stmt | apply ci_ctrl | apply ci_init | apply ci_cb | apply ci_func]; try assumption; exact I. Qed.
-
-Lemma citems_weaken (Pc Ph Pc' Ph' : list token -> Prop) l off ts ds :
-  (forall cond, Pc cond -> Pc' cond) -> (forall hd, Ph hd -> Ph' hd) ->
-  citems Pc Ph l off ts ds -> citems Pc' Ph' l off ts ds.
-Proof. intros HP HQ. induction 1; [apply ci_nil | apply ci_stmt | apply ci_ctrl | apply ci_init | apply ci_cb | apply ci_func]; auto. Qed.
 
 (* every program is consumed by the group run at depth >= 1 (its parentheses are balanced) *)
 Lemma pgain_stmt s : simple_stmt s -> pgain s 0.
@@ -77,6 +27,8 @@ Proof.
                  |off kw words cond o body c r ds1 ds2 Hkw Hwords Hcond HPc Ho Hc Hb IHb Hr IHr
                  |off pre o flat c post semi r ds Hpre Ho Hflat Hc Hpost Hsemi Hr IH
                  |off a tail o body c post semi r ds1 ds2 Hjs Hane Hop Hlast Htail Ho Hc Hpost Hsemi Hb IHb Hr IHr
+                 |off pre kn nm gs o body c post semi r ds1 ds2 Hl Hpre Hkn Hnm Hgs Ho Hc Hb IHb Hpost Hsemi Hr IHr
+                 |off pre kn nm gs o body c post semi r ds1 ds2 Hl Hpre Hkn Hnm Hgs Ho Hc Hfl Eds Hpost Hsemi Hr IHr
                  |off pre hd nm_off hend_off o body c r ds1 ds2 Hpre Hhd HPh Ho Hc Hb IHb Hflat Hr IHr].
   - apply pgain_nil.
   - apply pgain_app0; [apply pgain_stmt; exact Hs | exact IH].
@@ -101,6 +53,20 @@ Proof.
     rewrite groups_len_closers by (assumption || lia).
     destruct (semi_noparen semi Hsemi) as [S1 S2]. rewrite groups_len_inside_plain by assumption.
     rewrite IHr by exact Hd. cbn [Z.of_nat]. rewrite Z.add_0_r. norm_len. lia.
+  - apply pgain_app0; [apply pgain_plains; exact Hpre|].
+    apply pgain_tok; [eapply keyword_noparen, kw_is_keyword; exact Hkn|].
+    apply pgain_tok; [apply name_noparen; exact Hnm|].
+    apply pgain_app0; [apply pgain_groups; exact Hgs|].
+    apply pgain_tok; [apply lbrace_noparen; exact Ho|].
+    apply pgain_app0; [exact IHb|]. apply pgain_tok; [apply rbrace_noparen; exact Hc|].
+    apply pgain_app0; [apply pgain_inner; exact Hpost|]. apply pgain_tok; [apply semi_noparen; exact Hsemi | exact IHr].
+  - apply pgain_app0; [apply pgain_plains; exact Hpre|].
+    apply pgain_tok; [eapply keyword_noparen, kw_is_keyword; exact Hkn|].
+    apply pgain_tok; [apply name_noparen; exact Hnm|].
+    apply pgain_app0; [apply pgain_groups; exact Hgs|].
+    apply pgain_tok; [apply lbrace_noparen; exact Ho|].
+    apply pgain_app0; [apply pgain_plains; exact Hfl|]. apply pgain_tok; [apply rbrace_noparen; exact Hc|].
+    apply pgain_app0; [apply pgain_inner; exact Hpost|]. apply pgain_tok; [apply semi_noparen; exact Hsemi | exact IHr].
   - apply pgain_app0; [apply (pgain_prefix l); exact Hpre|].
     apply pgain_app0; [eapply fhead_pgain; exact Hhd|].
     apply pgain_tok; [apply lbrace_noparen; exact Ho|].
@@ -229,6 +195,43 @@ Section OneSelection.
     exact Hr.
   Qed.
 
+  (* `new Name (…) { body } post ;` — F = pre ++ kn :: nm :: gs, with the segment of F given *)
+  Lemma seg_new_items off F o body cl post semi r B hf hb hr :
+    is_lbrace o = true -> is_rbrace cl = true -> inner post -> is_symbol semi semicolon = true ->
+    Seg c f off F (([o] ++ body ++ [cl] ++ (post ++ [semi]) ++ r) ++ B) hf ->
+    Seg c f (off + length F + 1) body (([cl] ++ (post ++ [semi]) ++ r) ++ B) hb ->
+    Seg c f (off + length F + 1 + length body + 1 + length post + 1) r B hr ->
+    Seg c f off (F ++ [o] ++ body ++ [cl] ++ (post ++ [semi]) ++ r) B (hf ++ hb ++ hr).
+  Proof.
+    intros Ho Hcl Hpost Hsemi Hf0 Hb Hr.
+    change (hf ++ hb ++ hr) with (hf ++ [] ++ hb ++ [] ++ [] ++ hr).
+    apply Seg_app; [exact Hf0|].
+    apply Seg_app; [eapply seg_symbol; exact Ho|].
+    cbn [length]. apply Seg_app; [exact Hb|].
+    apply Seg_app; [eapply seg_symbol; exact Hcl|].
+    apply Seg_app; [apply seg_stmt; exists post, semi; auto|].
+    replace (off + length F + 1 + length body + length [cl] + length (post ++ [semi]))
+      with (off + length F + 1 + length body + 1 + length post + 1) by (norm_len; lia).
+    exact Hr.
+  Qed.
+
+  Lemma seg_new_flat off F o body cl post semi r B hf hr :
+    is_lbrace o = true -> forallb plain body = true -> is_rbrace cl = true -> inner post -> is_symbol semi semicolon = true ->
+    Seg c f off F (((o :: body ++ [cl]) ++ (post ++ [semi]) ++ r) ++ B) hf ->
+    Seg c f (off + length F + 1 + length body + 1 + length post + 1) r B hr ->
+    Seg c f off (F ++ (o :: body ++ [cl]) ++ (post ++ [semi]) ++ r) B (hf ++ hr).
+  Proof.
+    intros Ho Hfl Hcl Hpost Hsemi Hf0 Hr.
+    change (hf ++ hr) with (hf ++ [] ++ [] ++ hr).
+    apply Seg_app; [exact Hf0|].
+    apply Seg_app.
+    { apply (Seg_none c f Hc Hf). apply (o_init _ _ _ _ G [] o body cl); try assumption. reflexivity. }
+    apply Seg_app; [apply seg_stmt; exists post, semi; auto|].
+    replace (off + length F + length (o :: body ++ [cl]) + length (post ++ [semi]))
+      with (off + length F + 1 + length body + 1 + length post + 1) by (norm_len; lia).
+    exact Hr.
+  Qed.
+
   Lemma seg_func off pre hd o body cl r B hh hb hr :
     forallb (prefix_word l) pre = true -> (exists x hd', hd = x :: hd' /\ word x = true) ->
     is_lbrace o = true -> is_rbrace cl = true ->
@@ -257,6 +260,34 @@ Proof.
   apply Permutation_app_comm.
 Qed.
 
+Lemma perm2 {A} (b1 b2 r1 r2 mb mr xb xr : list A) :
+  Permutation (b1 ++ b2) (mb ++ xb) -> Permutation (r1 ++ r2) (mr ++ xr) ->
+  Permutation ((b1 ++ r1) ++ (b2 ++ r2)) ((mb ++ mr) ++ (xb ++ xr)).
+Proof.
+  intros H1 H2. eapply Permutation_trans; [apply perm_mix|].
+  eapply Permutation_trans; [apply Permutation_app; eassumption|]. apply perm_mix.
+Qed.
+
+(* a header whose start is preceded by the keyword `new` (dropped by the Java / C# rule) *)
+Definition newhdr (off : nat) (ts : list token) (x : header) : Prop :=
+  exists k kn, h_start x = off + S k /\ nth_error ts k = Some kn /\ kw_is kn kw_new = true.
+
+Lemma newhdr_ctx off A ts C x : newhdr (off + length A) ts x -> newhdr off (A ++ ts ++ C) x.
+Proof.
+  intros (k & kn & E & Hn & Hk). exists (length A + k), kn. split; [lia|]. split; [|exact Hk].
+  rewrite nth_error_app2 by lia. replace (length A + k - length A) with k by lia.
+  rewrite nth_error_app1 by (apply nth_error_Some; congruence). exact Hn.
+Qed.
+
+Lemma newhdrs_ctx off off' A ts C xs : off' = off + length A -> Forall (newhdr off' ts) xs -> Forall (newhdr off (A ++ ts ++ C)) xs.
+Proof. intros -> H. eapply Forall_impl; [|exact H]. intros x. apply newhdr_ctx. Qed.
+
+Lemma newhdr_dropped ts x : newhdr 0 ts x -> java_drop ts x = true.
+Proof.
+  intros (k & kn & E & Hn & Hk). unfold java_drop. rewrite E. cbn [Nat.add]. rewrite Hn. cbn [taccept].
+  unfold kw_is in Hk. rewrite Hk. apply orb_true_r.
+Qed.
+
 Section TwoSelections.
   Variables Pc Ph : list token -> Prop.
   Variable l : language.
@@ -270,63 +301,165 @@ Section TwoSelections.
     (Seg c1 f1 off hd (o :: B) [] /\ Seg c2 f2 off hd (o :: B) [mkHeader (off + n) off (off + h)]).
   Hypothesis HS : head_split.
 
-  Theorem citems_segs off ts ds : citems Pc Ph l off ts ds -> forall B, exists h1 h2,
-    Seg c1 f1 off ts B h1 /\ Seg c2 f2 off ts B h2 /\ Permutation (h1 ++ h2) (map header_of ds).
+  (* `new Name (…)` in front of a brace: selected by the first selection *)
+  Definition new_split : Prop := forall pre kn nm gs o B off, (l = LJava \/ l = LCSharp) ->
+    forallb plain pre = true -> kw_is kn kw_new = true -> is_name nm = true -> groups gs -> is_lbrace o = true ->
+    Seg c1 f1 off (pre ++ kn :: nm :: gs) (o :: B)
+        [mkHeader (off + length pre + 1) (off + length pre + 1) (off + length pre + 2 + length gs)] /\
+    Seg c2 f2 off (pre ++ kn :: nm :: gs) (o :: B) [].
+  Hypothesis HN : new_split.
+
+  Theorem citems_segs off ts ds : citems Pc Ph l off ts ds -> forall B, exists h1 h2 xs,
+    Seg c1 f1 off ts B h1 /\ Seg c2 f2 off ts B h2 /\ Permutation (h1 ++ h2) (map header_of ds ++ xs) /\
+    Forall (newhdr off ts) xs /\ ((l = LJava \/ l = LCSharp) \/ xs = []).
   Proof.
     induction 1 as [off|off s r ds Hs Hr IH
                    |off kw words cond o body c r ds1 ds2 Hkw Hwords Hcond HPc Ho Hc Hb IHb Hr IHr
                    |off pre o flat c post semi r ds Hpre Ho Hflat Hc Hpost Hsemi Hr IH
                    |off a tail o body c post semi r ds1 ds2 Hjs Hane Hop Hlast Htail Ho Hc Hpost Hsemi Hb IHb Hr IHr
+                   |off pre kn nm gs o body c post semi r ds1 ds2 Hl Hpre Hkn Hnm Hgs Ho Hc Hb IHb Hpost Hsemi Hr IHr
+                   |off pre kn nm gs o body c post semi r ds1 ds2 Hl Hpre Hkn Hnm Hgs Ho Hc Hfl Eds Hpost Hsemi Hr IHr
                    |off pre hd nm_off hend_off o body c r ds1 ds2 Hpre Hhd HPh Ho Hc Hb IHb Hflat Hr IHr]; intros B.
-    - exists [], []. split; [apply Seg_nil|]. split; [apply Seg_nil | constructor].
-    - destruct (IH B) as (h1 & h2 & S1 & S2 & HP). exists h1, h2.
-      split; [|split; [|exact HP]].
+    - exists [], [], []. split; [apply Seg_nil|]. split; [apply Seg_nil|]. split; [constructor|]. split; [constructor | right; reflexivity].
+    - destruct (IH B) as (h1 & h2 & xs & S1 & S2 & HP & HX & HL). exists h1, h2, xs.
+      split; [|split; [|split; [exact HP|split; [|exact HL]]]].
       + change h1 with ([] ++ h1). apply Seg_app; [apply (seg_stmt Pc l c1 f1 G1); exact Hs | exact S1].
       + change h2 with ([] ++ h2). apply Seg_app; [apply (seg_stmt Pc l c2 f2 G2); exact Hs | exact S2].
-    - destruct (IHb (([c] ++ r) ++ B)) as (b1 & b2 & Sb1 & Sb2 & HPb).
-      destruct (IHr B) as (r1 & r2 & Sr1 & Sr2 & HPr).
-      exists (b1 ++ r1), (b2 ++ r2). split; [|split].
+      + rewrite <- (app_nil_r r). apply (newhdrs_ctx off _ s r [] xs eq_refl HX).
+    - destruct (IHb (([c] ++ r) ++ B)) as (b1 & b2 & xb & Sb1 & Sb2 & HPb & HXb & HLb).
+      destruct (IHr B) as (r1 & r2 & xr & Sr1 & Sr2 & HPr & HXr & HLr).
+      exists (b1 ++ r1), (b2 ++ r2), (xb ++ xr). split; [|split; [|split; [|split]]].
       + apply (seg_ctrl Pc l c1 f1 G1); assumption.
       + apply (seg_ctrl Pc l c2 f2 G2); assumption.
-      + rewrite map_app. eapply Permutation_trans; [apply perm_mix|]. apply Permutation_app; assumption.
-    - destruct (IH B) as (h1 & h2 & S1 & S2 & HP). exists h1, h2.
-      split; [|split; [|exact HP]].
+      + rewrite map_app. apply perm2; assumption.
+      + apply Forall_app. split.
+        * replace (kw :: words ++ cond ++ o :: body ++ c :: r) with ((kw :: words ++ cond ++ [o]) ++ body ++ (c :: r))
+            by (norm_app; reflexivity).
+          eapply (newhdrs_ctx off _ _ body _ xb); [|exact HXb]; norm_len; lia.
+        * replace (kw :: words ++ cond ++ o :: body ++ c :: r) with ((kw :: words ++ cond ++ o :: body ++ [c]) ++ r ++ [])
+            by (rewrite app_nil_r; norm_app; reflexivity).
+          eapply (newhdrs_ctx off _ _ r _ xr); [|exact HXr]; norm_len; lia.
+      + destruct HLb as [HLb| ->]; [left; exact HLb|]. destruct HLr as [HLr| ->]; [left; exact HLr | right; reflexivity].
+    - destruct (IH B) as (h1 & h2 & xs & S1 & S2 & HP & HX & HL). exists h1, h2, xs.
+      split; [|split; [|split; [exact HP|split; [|exact HL]]]].
       + apply (seg_init Pc l c1 f1 G1); assumption.
       + apply (seg_init Pc l c2 f2 G2); assumption.
-    - destruct (IHb (((c :: post ++ [semi]) ++ r) ++ B)) as (b1 & b2 & Sb1 & Sb2 & HPb).
-      destruct (IHr B) as (r1 & r2 & Sr1 & Sr2 & HPr).
+      + replace (pre ++ o :: flat ++ c :: post ++ semi :: r) with ((pre ++ o :: flat ++ c :: post ++ [semi]) ++ r ++ [])
+          by (rewrite app_nil_r; norm_app; reflexivity).
+        eapply (newhdrs_ctx off _ _ r _ xs); [|exact HX]; norm_len; lia.
+    - destruct (IHb (((c :: post ++ [semi]) ++ r) ++ B)) as (b1 & b2 & xb & Sb1 & Sb2 & HPb & HXb & HLb).
+      destruct (IHr B) as (r1 & r2 & xr & Sr1 & Sr2 & HPr & HXr & HLr).
       pose proof (citems_pgain _ _ _ _ _ _ Hb) as Hpg.
-      exists (b1 ++ r1), (b2 ++ r2). split; [|split].
+      exists (b1 ++ r1), (b2 ++ r2), (xb ++ xr). split; [|split; [|split; [|split]]].
       + apply (seg_cb Pc l c1 f1 G1); assumption.
       + apply (seg_cb Pc l c2 f2 G2); assumption.
-      + rewrite map_app. eapply Permutation_trans; [apply perm_mix|]. apply Permutation_app; assumption.
-    - destruct (IHb (([c] ++ r) ++ B)) as (b1 & b2 & Sb1 & Sb2 & HPb).
-      destruct (IHr B) as (r1 & r2 & Sr1 & Sr2 & HPr).
+      + rewrite map_app. apply perm2; assumption.
+      + apply Forall_app. split.
+        * replace (a ++ tail ++ o :: body ++ c :: post ++ semi :: r) with ((a ++ tail ++ [o]) ++ body ++ (c :: post ++ semi :: r))
+            by (norm_app; reflexivity).
+          eapply (newhdrs_ctx off _ _ body _ xb); [|exact HXb]; norm_len; lia.
+        * replace (a ++ tail ++ o :: body ++ c :: post ++ semi :: r) with ((a ++ tail ++ o :: body ++ c :: post ++ [semi]) ++ r ++ [])
+            by (rewrite app_nil_r; norm_app; reflexivity).
+          eapply (newhdrs_ctx off _ _ r _ xr); [|exact HXr]; norm_len; lia.
+      + destruct HLb as [HLb| ->]; [left; exact HLb|]. destruct HLr as [HLr| ->]; [left; exact HLr | right; reflexivity].
+    - (* new Name (…) { items } post ; *)
+      destruct (IHb (([c] ++ (post ++ [semi]) ++ r) ++ B)) as (b1 & b2 & xb & Sb1 & Sb2 & HPb & HXb & HLb).
+      destruct (IHr B) as (r1 & r2 & xr & Sr1 & Sr2 & HPr & HXr & HLr).
+      destruct (HN pre kn nm gs o ((body ++ [c] ++ (post ++ [semi]) ++ r) ++ B) off Hl Hpre Hkn Hnm Hgs Ho) as [SF1 SF2].
+      set (x0 := mkHeader (off + length pre + 1) (off + length pre + 1) (off + length pre + 2 + length gs)) in *.
+      replace (pre ++ kn :: nm :: gs ++ o :: body ++ c :: post ++ semi :: r)
+        with ((pre ++ kn :: nm :: gs) ++ [o] ++ body ++ [c] ++ (post ++ [semi]) ++ r) by (norm_app; reflexivity).
+      exists ([x0] ++ b1 ++ r1), ([] ++ b2 ++ r2), (x0 :: xb ++ xr). split; [|split; [|split; [|split]]].
+      + apply (seg_new_items Pc l c1 f1 G1); try assumption.
+        * replace (off + length (pre ++ kn :: nm :: gs) + 1) with (off + length pre + 2 + length gs + 1) by (norm_len; lia). exact Sb1.
+        * replace (off + length (pre ++ kn :: nm :: gs) + 1 + length body + 1 + length post + 1)
+            with (off + length pre + 2 + length gs + 1 + length body + 1 + length post + 1) by (norm_len; lia). exact Sr1.
+      + apply (seg_new_items Pc l c2 f2 G2); try assumption.
+        * replace (off + length (pre ++ kn :: nm :: gs) + 1) with (off + length pre + 2 + length gs + 1) by (norm_len; lia). exact Sb2.
+        * replace (off + length (pre ++ kn :: nm :: gs) + 1 + length body + 1 + length post + 1)
+            with (off + length pre + 2 + length gs + 1 + length body + 1 + length post + 1) by (norm_len; lia). exact Sr2.
+      + cbn [app]. rewrite map_app. apply Permutation_cons_app. apply perm2; assumption.
+      + constructor; [|apply Forall_app; split].
+        * exists (length pre), kn. split; [unfold x0; cbn [h_start]; lia|]. split; [|exact Hkn].
+          rewrite <- app_assoc. rewrite nth_error_app2 by lia. rewrite Nat.sub_diag. reflexivity.
+        * replace ((pre ++ kn :: nm :: gs) ++ [o] ++ body ++ [c] ++ (post ++ [semi]) ++ r)
+            with ((pre ++ kn :: nm :: gs ++ [o]) ++ body ++ (c :: post ++ semi :: r)) by (norm_app; reflexivity).
+          eapply (newhdrs_ctx off _ _ body _ xb); [|exact HXb]; norm_len; lia.
+        * replace ((pre ++ kn :: nm :: gs) ++ [o] ++ body ++ [c] ++ (post ++ [semi]) ++ r)
+            with ((pre ++ kn :: nm :: gs ++ o :: body ++ c :: post ++ [semi]) ++ r ++ []) by (rewrite app_nil_r; norm_app; reflexivity).
+          eapply (newhdrs_ctx off _ _ r _ xr); [|exact HXr]; norm_len; lia.
+      + left. exact Hl.
+    - (* new Name (…) { flat } post ; *)
+      subst ds1. cbn [app].
+      destruct (IHr B) as (r1 & r2 & xr & Sr1 & Sr2 & HPr & HXr & HLr).
+      destruct (HN pre kn nm gs o ((body ++ [c] ++ (post ++ [semi]) ++ r) ++ B) off Hl Hpre Hkn Hnm Hgs Ho) as [SF1 SF2].
+      set (x0 := mkHeader (off + length pre + 1) (off + length pre + 1) (off + length pre + 2 + length gs)) in *.
+      replace (pre ++ kn :: nm :: gs ++ o :: body ++ c :: post ++ semi :: r)
+        with ((pre ++ kn :: nm :: gs) ++ (o :: body ++ [c]) ++ (post ++ [semi]) ++ r) by (norm_app; reflexivity).
+      exists ([x0] ++ r1), ([] ++ r2), (x0 :: xr). split; [|split; [|split; [|split]]].
+      + apply (seg_new_flat Pc l c1 f1 G1); try assumption.
+        * replace (((o :: body ++ [c]) ++ (post ++ [semi]) ++ r) ++ B) with (o :: (body ++ [c] ++ (post ++ [semi]) ++ r) ++ B)
+            by (norm_app; reflexivity). exact SF1.
+        * replace (off + length (pre ++ kn :: nm :: gs) + 1 + length body + 1 + length post + 1)
+            with (off + length pre + 2 + length gs + 1 + length body + 1 + length post + 1) by (norm_len; lia). exact Sr1.
+      + apply (seg_new_flat Pc l c2 f2 G2); try assumption.
+        * replace (((o :: body ++ [c]) ++ (post ++ [semi]) ++ r) ++ B) with (o :: (body ++ [c] ++ (post ++ [semi]) ++ r) ++ B)
+            by (norm_app; reflexivity). exact SF2.
+        * replace (off + length (pre ++ kn :: nm :: gs) + 1 + length body + 1 + length post + 1)
+            with (off + length pre + 2 + length gs + 1 + length body + 1 + length post + 1) by (norm_len; lia). exact Sr2.
+      + cbn [app]. apply Permutation_cons_app. exact HPr.
+      + constructor.
+        * exists (length pre), kn. split; [unfold x0; cbn [h_start]; lia|]. split; [|exact Hkn].
+          rewrite <- app_assoc. rewrite nth_error_app2 by lia. rewrite Nat.sub_diag. reflexivity.
+        * replace ((pre ++ kn :: nm :: gs) ++ (o :: body ++ [c]) ++ (post ++ [semi]) ++ r)
+            with ((pre ++ kn :: nm :: gs ++ o :: body ++ c :: post ++ [semi]) ++ r ++ []) by (rewrite app_nil_r; norm_app; reflexivity).
+          eapply (newhdrs_ctx off _ _ r _ xr); [|exact HXr]; norm_len; lia.
+      + left. exact Hl.
+    - destruct (IHb (([c] ++ r) ++ B)) as (b1 & b2 & xb & Sb1 & Sb2 & HPb & HXb & HLb).
+      destruct (IHr B) as (r1 & r2 & xr & Sr1 & Sr2 & HPr & HXr & HLr).
       pose proof (fhead_first _ _ _ _ Hhd) as Hfirst.
-      assert (HPbr : Permutation ((b1 ++ r1) ++ (b2 ++ r2)) (map header_of (ds1 ++ ds2))).
-      { rewrite map_app. eapply Permutation_trans; [apply perm_mix|]. apply Permutation_app; assumption. }
+      assert (HPbr : Permutation ((b1 ++ r1) ++ (b2 ++ r2)) (map header_of (ds1 ++ ds2) ++ (xb ++ xr))).
+      { rewrite map_app. apply perm2; assumption. }
+      assert (HXbr : Forall (newhdr off (pre ++ hd ++ o :: body ++ c :: r)) (xb ++ xr)).
+      { apply Forall_app. split.
+        - replace (pre ++ hd ++ o :: body ++ c :: r) with ((pre ++ hd ++ [o]) ++ body ++ (c :: r)) by (norm_app; reflexivity).
+          eapply (newhdrs_ctx off _ _ body _ xb); [|exact HXb]; norm_len; lia.
+        - replace (pre ++ hd ++ o :: body ++ c :: r) with ((pre ++ hd ++ o :: body ++ [c]) ++ r ++ [])
+            by (rewrite app_nil_r; norm_app; reflexivity).
+          eapply (newhdrs_ctx off _ _ r _ xr); [|exact HXr]; norm_len; lia. }
+      assert (HLbr : (l = LJava \/ l = LCSharp) \/ xb ++ xr = []).
+      { destruct HLb as [HLb| ->]; [left; exact HLb|]. destruct HLr as [HLr| ->]; [left; exact HLr | right; reflexivity]. }
       cbn [map header_of fd_name fd_start fd_hend].
       destruct (HS hd nm_off hend_off o ((body ++ [c] ++ r) ++ B) (off + length pre) Hhd HPh Ho) as [[Sh1 Sh2]|[Sh1 Sh2]].
       + exists ([mkHeader (off + length pre + nm_off) (off + length pre) (off + length pre + hend_off)] ++ b1 ++ r1),
-               ([] ++ b2 ++ r2).
-        split; [|split].
+               ([] ++ b2 ++ r2), (xb ++ xr).
+        split; [|split; [|split; [|split; assumption]]].
         * apply (seg_func Pc l c1 f1 G1); assumption.
         * apply (seg_func Pc l c2 f2 G2); assumption.
         * cbn [app]. apply perm_skip. exact HPbr.
       + exists ([] ++ b1 ++ r1),
-               ([mkHeader (off + length pre + nm_off) (off + length pre) (off + length pre + hend_off)] ++ b2 ++ r2).
-        split; [|split].
+               ([mkHeader (off + length pre + nm_off) (off + length pre) (off + length pre + hend_off)] ++ b2 ++ r2), (xb ++ xr).
+        split; [|split; [|split; [|split; assumption]]].
         * apply (seg_func Pc l c1 f1 G1); assumption.
         * apply (seg_func Pc l c2 f2 G2); assumption.
         * cbn [app]. apply Permutation_sym. apply Permutation_cons_app. apply Permutation_sym. exact HPbr.
   Qed.
 
-  Theorem canonical_two_shapes ts ds : citems Pc Ph l 0 ts ds ->
+  Theorem canonical_two_shapes ts ds : citems Pc Ph l 0 ts ds -> exists xs,
+    Permutation (shape_headers c1 f1 ts ++ shape_headers c2 f2 ts) (map header_of ds ++ xs) /\
+    Forall (newhdr 0 ts) xs /\ ((l = LJava \/ l = LCSharp) \/ xs = []).
+  Proof.
+    intros H. destruct (citems_segs 0 ts ds H []) as (h1 & h2 & xs & S1 & S2 & HP & HX & HL).
+    rewrite (Seg_shape c1 f1 ts h1 S1).
+    rewrite (Seg_shape c2 f2 ts h2 S2). exists xs. auto.
+  Qed.
+
+  (* languages without the `new` rule *)
+  Theorem canonical_two_shapes_plain ts ds : l <> LJava -> l <> LCSharp -> citems Pc Ph l 0 ts ds ->
     Permutation (shape_headers c1 f1 ts ++ shape_headers c2 f2 ts) (map header_of ds).
   Proof.
-    intros H. destruct (citems_segs 0 ts ds H []) as (h1 & h2 & S1 & S2 & HP).
-    rewrite (Seg_shape c1 f1 ts h1 S1).
-    rewrite (Seg_shape c2 f2 ts h2 S2). exact HP.
+    intros H1 H2 H. destruct (canonical_two_shapes ts ds H) as (xs & HP & _ & [[E|E]| ->]); try congruence.
+    rewrite app_nil_r in HP. exact HP.
   Qed.
 End TwoSelections.
 
@@ -500,6 +633,8 @@ Proof.
                  |off kw words cond o body c r ds1 ds2 Hkw Hwords Hcond Hnt Ho Hc Hb IHb Hr IHr
                  |off pre o flat c post semi r ds Hpre Ho Hflat Hc Hpost Hsemi Hr IH
                  |off a tail o body c post semi r ds1 ds2 Hjs Hane Hop Hlast Htail Ho Hc Hpost Hsemi Hb IHb Hr IHr
+                 |off pre kn nm gs o body c post semi r ds1 ds2 Hl Hpre Hkn Hnm Hgs Ho Hc Hb IHb Hpost Hsemi Hr IHr
+                 |off pre kn nm gs o body c post semi r ds1 ds2 Hl Hpre Hkn Hnm Hgs Ho Hc Hfl Eds Hpost Hsemi Hr IHr
                  |off pre hd nm_off hend_off o body c r ds1 ds2 Hpre Hhd HPh Ho Hc Hb IHb Hflat Hr IHr]; intros P B HP HL.
   - constructor.
   - replace (P ++ (s ++ r) ++ B) with ((P ++ s) ++ r ++ B) by (norm_app; reflexivity).
@@ -534,6 +669,25 @@ Proof.
       replace (P ++ a ++ tail ++ o :: body ++ c :: post ++ [semi]) with ((P ++ a ++ tail ++ o :: body ++ c :: post) ++ [semi])
         by (norm_app; reflexivity).
       apply last_ok_snoc. eapply symbol_no_drop; exact Hsemi.
+  - apply Forall_app. split.
+    + replace (P ++ (pre ++ kn :: nm :: gs ++ o :: body ++ c :: post ++ semi :: r) ++ B)
+        with ((P ++ pre ++ kn :: nm :: gs ++ [o]) ++ body ++ (c :: post ++ semi :: r ++ B)) by (norm_app; reflexivity).
+      apply IHb; [norm_len; lia|].
+      replace (P ++ pre ++ kn :: nm :: gs ++ [o]) with ((P ++ pre ++ kn :: nm :: gs) ++ [o]) by (norm_app; reflexivity).
+      apply last_ok_snoc. eapply symbol_no_drop; exact Ho.
+    + replace (P ++ (pre ++ kn :: nm :: gs ++ o :: body ++ c :: post ++ semi :: r) ++ B)
+        with ((P ++ pre ++ kn :: nm :: gs ++ o :: body ++ c :: post ++ [semi]) ++ r ++ B) by (norm_app; reflexivity).
+      apply IHr; [norm_len; lia|].
+      replace (P ++ pre ++ kn :: nm :: gs ++ o :: body ++ c :: post ++ [semi]) with ((P ++ pre ++ kn :: nm :: gs ++ o :: body ++ c :: post) ++ [semi])
+        by (norm_app; reflexivity).
+      apply last_ok_snoc. eapply symbol_no_drop; exact Hsemi.
+  - subst ds1. cbn [app].
+    replace (P ++ (pre ++ kn :: nm :: gs ++ o :: body ++ c :: post ++ semi :: r) ++ B)
+      with ((P ++ pre ++ kn :: nm :: gs ++ o :: body ++ c :: post ++ [semi]) ++ r ++ B) by (norm_app; reflexivity).
+    apply IHr; [norm_len; lia|].
+    replace (P ++ pre ++ kn :: nm :: gs ++ o :: body ++ c :: post ++ [semi]) with ((P ++ pre ++ kn :: nm :: gs ++ o :: body ++ c :: post) ++ [semi])
+      by (norm_app; reflexivity).
+    apply last_ok_snoc. eapply symbol_no_drop; exact Hsemi.
   - constructor; [|apply Forall_app; split].
     + unfold header_of. cbn [fd_name fd_start fd_hend].
       replace (P ++ (pre ++ hd ++ o :: body ++ c :: r) ++ B)
@@ -567,3 +721,71 @@ Proof.
   pose proof (citems_no_drop Pc Ph l 0 ts ds H [] [] eq_refl last_ok_nil) as HF.
   cbn [app] in HF. rewrite app_nil_r in HF. rewrite Forall_forall in HF. rewrite (HF d Hd). reflexivity.
 Qed.
+
+(* ---------- the `new` rule drops exactly the headers of the `new Name (…) {` statements ---------- *)
+Lemma filter_perm {A} (p : A -> bool) l l' : Permutation l l' -> Permutation (filter p l) (filter p l').
+Proof.
+  induction 1 as [|x l l' H IH|x y l|l l' l'' H1 IH1 H2 IH2]; cbn [filter].
+  - constructor.
+  - destruct (p x); [apply perm_skip|]; exact IH.
+  - destruct (p x), (p y); try apply Permutation_refl. apply perm_swap.
+  - eapply Permutation_trans; eassumption.
+Qed.
+
+Lemma filter_none {A} (p : A -> bool) l : (forall x, In x l -> p x = false) -> filter p l = [].
+Proof.
+  induction l as [|x l IH]; intros H; [reflexivity|].
+  cbn [filter]. rewrite (H x) by (left; reflexivity). apply IH. intros y Hy. apply H. right. exact Hy.
+Qed.
+
+Theorem canonical_filtered Pc Ph l ts ds hs xs : citems Pc Ph l 0 ts ds ->
+  Permutation hs (map header_of ds ++ xs) -> Forall (newhdr 0 ts) xs ->
+  Permutation (filter (fun h => negb (java_drop ts h)) hs) (map header_of ds).
+Proof.
+  intros H HP HX. eapply Permutation_trans; [apply filter_perm; exact HP|].
+  rewrite filter_app. rewrite (canonical_no_drop Pc Ph l ts ds (map header_of ds) H (Permutation_refl _)).
+  rewrite filter_none; [rewrite app_nil_r; apply Permutation_refl|].
+  intros x Hx. rewrite Forall_forall in HX. rewrite (newhdr_dropped ts x (HX x Hx)). reflexivity.
+Qed.
+
+(* the front `pre new Name (…)` of such a statement under the C-family candidate *)
+Lemma new_front_no_acc f pre kn R : fshift f -> forallb plain pre = true -> is_keyword kn = true -> hd_ok nlp R ->
+  no_acc cand_plain f (pre ++ [kn]) R.
+Proof.
+  intros Hf Hpre Hkn HR. induction pre as [|p pre IH].
+  - apply no_acc_single. apply plain_not_name. apply keyword_not_name. exact Hkn.
+  - cbn [forallb] in Hpre. apply andb_prop in Hpre as [Hp Hpre]. cbn [app].
+    apply (no_acc_cons _ _ cshift_plain Hf); [|apply IH; exact Hpre].
+    apply plain_not_lparen. destruct pre as [|q pre].
+    + cbn [app hd_ok]. unfold nlp, is_lparen. rewrite (keyword_not_symbol _ _ Hkn). reflexivity.
+    + cbn [app hd_ok]. cbn [forallb] in Hpre. apply andb_prop in Hpre as [Hq _]. apply plain_nlp. exact Hq.
+Qed.
+
+Lemma new_front_seg f off pre kn nm gs o B : fshift f ->
+  forallb plain pre = true -> kw_is kn kw_new = true -> is_name nm = true -> groups gs -> is_lbrace o = true ->
+  acc cand_plain f (nm :: gs ++ o :: B) 0 = Some (0, S (length gs)) ->
+  Seg cand_plain f off (pre ++ kn :: nm :: gs) (o :: B)
+      [mkHeader (off + length pre + 1) (off + length pre + 1) (off + length pre + 2 + length gs)].
+Proof.
+  intros Hf Hpre Hkn Hnm Hgs Ho Hacc.
+  replace (pre ++ kn :: nm :: gs) with ((pre ++ [kn]) ++ nm :: gs) by (norm_app; reflexivity).
+  change [mkHeader (off + length pre + 1) (off + length pre + 1) (off + length pre + 2 + length gs)]
+    with ([] ++ [mkHeader (off + length pre + 1) (off + length pre + 1) (off + length pre + 2 + length gs)]).
+  apply Seg_app.
+  - apply (Seg_none _ _ cshift_plain Hf). apply new_front_no_acc; [exact Hf | exact Hpre | eapply kw_is_keyword; exact Hkn|].
+    cbn [app hd_ok]. unfold nlp, is_lparen. rewrite (name_not_symbol _ _ Hnm). reflexivity.
+  - replace (off + length (pre ++ [kn])) with (off + length pre + 1) by (norm_len; lia).
+    pose proof (Seg_head_eq _ _ cshift_plain Hf (off + length pre + 1) (nm :: gs) (o :: B) (nm :: gs ++ o :: B) 0 (S (length gs))
+                  (S (length gs)) Hacc eq_refl eq_refl eq_refl (Nat.lt_0_succ _)) as HS.
+    replace (off + length pre + 1 + 0) with (off + length pre + 1) in HS by lia.
+    replace (off + length pre + 1 + S (length gs)) with (off + length pre + 2 + length gs) in HS by lia. exact HS.
+Qed.
+
+Theorem new_split_cfamily l : new_split l cand_plain follow_brace cand_never follow_brace.
+Proof.
+  intros pre kn nm gs o B off _ Hpre Hkn Hnm Hgs Ho. split; [|apply Seg_never].
+  apply new_front_seg; try assumption; [apply fshift_brace | apply plain_head; assumption].
+Qed.
+
+Theorem new_split_none l c1 f1 c2 f2 : l <> LJava -> l <> LCSharp -> new_split l c1 f1 c2 f2.
+Proof. intros H1 H2 pre kn nm gs o B off [E|E]; congruence. Qed.
